@@ -49,32 +49,7 @@ OP_NAME = "myOp_query"
 
 
 def rename_program(p):
-    """pure renaming of the program: non-UpperCamelCase type and operation names (same program up to names)"""
-    def ren(x):
-        return TYPE_RENAMES.get(x, x)
-
-    def walk(v):
-        if v["t"] == "obj":
-            for kv in v["o"]:
-                if kv["k"] == "__typename" and kv["v"]["t"] in ("str", "opt"):
-                    kv["v"]["s"] = ren(kv["v"]["s"])
-                else:
-                    walk(kv["v"])
-        elif v["t"] == "list":
-            for x in v["l"]:
-                walk(x)
-    for d in p["doc"]["defs"]:
-        d["on"] = ren(d["on"])
-        if d["k"] == "op":
-            d["name"] = OP_NAME
-    for n in p["doc"]["nodes"]:
-        n["on"] = ren(n["on"])
-    for v in p["vectors"]:
-        walk(v["payload"])
-        walk(v["expect"])
-        if v["alt"]["a"] in ("type", "c_tn_swap"):
-            v["alt"]["x"] = ren(v["alt"]["x"])
-    return p
+    return prog.rename_program(p, TYPE_RENAMES, OP_NAME)
 
 
 def opts_of(o):
